@@ -184,6 +184,7 @@ class AsyncLRUCacheWrapper(Generic[P, T]):
                     None,
                 )
                 cache_entry[key] = cached_value, lock, expires_at
+                cache_entry.move_to_end(key)
             else:
                 # The value was already cached
                 self._hits += 1
